@@ -21,7 +21,7 @@ def scratch_copy():
 
 def run_check(d, pid, tier='quick'):
     env = dict(os.environ, VERIF_REPO=d + '/repo', VERIF_CACHE=d + '/cache',
-               VERIF_TARGET_DIR=os.path.join(VERIF, '.cache', 'target-canary'), VERIF_EVIDENCE_DIR=d + '/ev')
+               VERIF_TARGET_DIR=os.environ.get('VERIF_CANARY_TARGET', os.path.join(VERIF, '.cache', 'target-canary')), VERIF_EVIDENCE_DIR=d + '/ev')
     r = subprocess.run([os.path.join(VERIF, 'check'), pid, '--tier', tier], env=env,
                        stdout=subprocess.PIPE, stderr=subprocess.STDOUT, text=True)
     return r.returncode, r.stdout
